@@ -28,20 +28,20 @@ import (
 type action string
 
 const (
-	actClose1     action = "close1"     // one Close caller, with pending Handshake/Read(/Write)
-	actClose2     action = "close2"     // two concurrent Close callers
-	actClose3     action = "close3"     // three concurrent Close callers
-	actPeerClose  action = "peerclose"  // the peer closes; local Read must see EOF; then local Close
-	actBothClose  action = "bothclose"  // both sides call Close at the same quiescent point
-	actAlert0     action = "alert0"     // a plaintext fatal alert arrives (epoch 0)
-	actCtx        action = "ctxdeadline" // the HandshakeContext deadline expires here
-	actReadDL     action = "readdeadline"
-	actHoldClose  action = "holdclose"  // Close (x2) while the endpoint is inside an emission (holds the write lock)
-	actHoldPeerCN action = "holdreply"  // user Close while the reply to the peer's close_notify is being emitted
-	actPeerCloseWF action = "peerclosewf" // the peer closes while this endpoint's transport refuses writes (the close_notify reply cannot be sent)
-	actCloseWF     action = "closewf"     // the application closes while the transport refuses writes (close_notify cannot be sent)
-	actStallDL    action = "stalldeadline" // a Write stalled in a back-pressured transport is interrupted by the write deadline (set before or during the stall)
-	actStallClose action = "stallclose" // Close (x2) while an emission is stalled in a back-pressured transport (honours deadlines, never completes by itself)
+	actClose1      action = "close1"      // one Close caller, with pending Handshake/Read(/Write)
+	actClose2      action = "close2"      // two concurrent Close callers
+	actClose3      action = "close3"      // three concurrent Close callers
+	actPeerClose   action = "peerclose"   // the peer closes; local Read must see EOF; then local Close
+	actBothClose   action = "bothclose"   // both sides call Close at the same quiescent point
+	actAlert0      action = "alert0"      // a plaintext fatal alert arrives (epoch 0)
+	actCtx         action = "ctxdeadline" // the HandshakeContext deadline expires here
+	actReadDL      action = "readdeadline"
+	actHoldClose   action = "holdclose"     // Close (x2) while the endpoint is inside an emission (holds the write lock)
+	actHoldPeerCN  action = "holdreply"     // user Close while the reply to the peer's close_notify is being emitted
+	actPeerCloseWF action = "peerclosewf"   // the peer closes while this endpoint's transport refuses writes (the close_notify reply cannot be sent)
+	actCloseWF     action = "closewf"       // the application closes while the transport refuses writes (close_notify cannot be sent)
+	actStallDL     action = "stalldeadline" // a Write stalled in a back-pressured transport is interrupted by the write deadline (set before or during the stall)
+	actStallClose  action = "stallclose"    // Close (x2) while an emission is stalled in a back-pressured transport (honours deadlines, never completes by itself)
 )
 
 var allActions = []action{actClose1, actClose2, actClose3, actPeerClose, actBothClose, actAlert0, actCtx, actReadDL, actHoldClose, actHoldPeerCN, actStallClose, actStallDL, actPeerCloseWF, actCloseWF}
@@ -129,7 +129,12 @@ func yield() {
 	}
 }
 
-func c16Run(t *testing.T, p *world.PKI, v checks.Variant, clientSide bool, pos int, act action, seed uint64) run.Outcome {
+// posAfterLoss: the handshake runs to completion over a network with the delivery faults of the mask m
+// (retransmissions, late copies and flights arriving at an endpoint that is already finished included),
+// then the lifecycle action happens on the idle established connection.
+const posAfterLoss = -1
+
+func c16Run(t *testing.T, p *world.PKI, v checks.Variant, clientSide bool, pos int, act action, seed uint64, m world.Mask) run.Outcome {
 	var o run.Outcome
 	var viol []string
 	bad := func(f string, a ...any) { viol = append(viol, fmt.Sprintf(f, a...)) }
@@ -154,7 +159,7 @@ func c16Run(t *testing.T, p *world.PKI, v checks.Variant, clientSide bool, pos i
 		if clientSide {
 			x, y = pr.C, pr.S
 		}
-		n := world.NewNet(w, world.ClientAddr, nil)
+		n := world.NewNet(w, world.ClientAddr, m)
 		w.CIDLenHint = pr.CIDLenFor
 		tr := pr.Trace(n)
 		defer func() { o.States, o.Transitions = tr.States, tr.Trans }()
@@ -378,7 +383,21 @@ func c16Run(t *testing.T, p *world.PKI, v checks.Variant, clientSide bool, pos i
 			steps++
 		}
 		established := pr.BothOK()
-		if steps < pos {
+		if pos == posAfterLoss {
+			_ = n.Pump(30*time.Second+time.Duration(len(m))*world.HoldCap, pr.BothDone)
+			if !pr.BothOK() || n.Faulted < len(m) {
+				// completion under loss is C02's subject; a mask that did not fire is another mask's execution
+				o.Skip = true
+				pr.CloseAll()
+				return
+			}
+			// what the faults left behind (held copies, the peer's retransmissions) is delivered as well
+			n.ClearFaults()
+			n.Flush()
+			w.Sleep(1500 * time.Millisecond)
+			n.Flush()
+			stage = "established-after-loss"
+		} else if steps < pos {
 			if !established {
 				// the handshake cannot progress further without time passing and pos not reached: pump to completion
 				_ = n.Pump(20*time.Second, pr.BothDone)
@@ -847,10 +866,42 @@ func TestC16(t *testing.T) {
 				for _, act := range allActions {
 					v, clientSide, pos, act := v, clientSide, pos, act
 					cases = append(cases, run.Case{ID: fmt.Sprintf("%s/%s/p%d/%s", v.Name, sideName(clientSide), pos, act),
-						Run: func(t *testing.T) run.Outcome { return c16Run(t, p, v, clientSide, pos, act, env.Seed+1) }})
+						Run: func(t *testing.T) run.Outcome { return c16Run(t, p, v, clientSide, pos, act, env.Seed+1, nil) }})
 				}
 			}
 		}
 	}
-	run.Main(t, "C16", cases, map[string]any{"variants": names, "positions": maxPos + 1, "actions": fmt.Sprint(allActions)})
+	// lifecycle after a lossy handshake: every single delivery fault over the first 6 datagrams per direction
+	lossy := []string{"12-cert", "12-resumed", "12-cid", "13-direct"}
+	lossActs := []action{actClose1, actPeerClose, actBothClose, actReadDL}
+	masks := checks.EnumMasks(6, 1, []world.Action{world.ActDrop, world.ActDup, world.ActHold3})
+	if env.Thorough() {
+		lossy = append(lossy, "12-psk", "12-clientauth", "12-cid-resumed", "13-hrr", "13-clientauth")
+		masks = checks.EnumMasks(8, 1, checks.AllFaultActions)
+	}
+	for _, name := range lossy {
+		var v checks.Variant
+		for _, x := range append(checks.AllVariants(), checks.VariantsCombined()...) {
+			if x.Name == name {
+				v = x
+			}
+		}
+		if v.Name == "" {
+			t.Fatalf("unknown variant %s", name)
+		}
+		for _, clientSide := range []bool{true, false} {
+			for _, m := range masks {
+				if len(m) == 0 {
+					continue
+				}
+				for _, act := range lossActs {
+					v, clientSide, m, act := v, clientSide, m, act
+					cases = append(cases, run.Case{ID: fmt.Sprintf("%s/%s/afterloss[%s]/%s", v.Name, sideName(clientSide), m, act),
+						Run: func(t *testing.T) run.Outcome { return c16Run(t, p, v, clientSide, posAfterLoss, act, env.Seed+1, m) }})
+				}
+			}
+		}
+	}
+	run.Main(t, "C16", cases, map[string]any{"variants": names, "positions": maxPos + 1, "actions": fmt.Sprint(allActions),
+		"after_loss_variants": lossy, "after_loss_masks": len(masks) - 1, "after_loss_actions": fmt.Sprint(lossActs)})
 }
